@@ -15,6 +15,9 @@ open Neutrino
 instance (hs : Hashing) (fhs : List Nat) (b f : Nat) : Decidable (Good hs fhs b f) := by
   unfold Good; infer_instance
 
+instance (hs : Hashing) (fhs : List Nat) (st : Store) : Decidable (StoreOk hs fhs st) := by
+  unfold StoreOk; infer_instance
+
 /-- **C05, full strength** (false for the code, see `C05_sound_counterexample`):
 after any history of calls, header re-commits and restarts, whatever `GetCFilter`
 returns for a block — fresh, from the cache or from the database — hashes with
@@ -78,6 +81,96 @@ theorem C05_sound (hs : Hashing) (s : State) (c : Call) (hne : 1 ≤ s.chain.fhs
     (∀ fid, (getCFilter hs s c).result = .ret fid → Good hs s.chain.fhs c.target fid) ∧
     StoreOk hs s.chain.fhs (getCFilter hs s c).st.store :=
   ⟨(getCFilter_ok hs s c hne hst).2, (getCFilter_ok hs s c hne hst).1⟩
+
+/-! ### the database layer under concurrent writers; what may enter the cache -/
+
+/-- **A read of the filter database is a snapshot read.**  `FetchFilter` decodes
+(copies) the value inside its read transaction, so whatever writers commit after
+the transaction was closed — any number of transactions, pages freed and re-used,
+the file re-mapped, modelled by an arbitrary `garble` of bytes read too late —
+the call returns what the snapshot held. -/
+theorem C05_db_read_is_snapshot (garble : Nat → Nat) (db ws : List (Nat × Nat)) (k : Nat) :
+    dbFetch true garble db ws k = lookup db k := dbFetch_inTx garble db ws k
+
+/-- **C05 for one call with concurrent writers** committing between the end of
+the call's database read transaction and whatever it does next: if the stores
+were consistent and the writers persist matching filters (the batch writer
+persists what `handleResponse` verified), what is returned and everything left
+in the cache and the database matches the committed headers — for every `garble`. -/
+theorem C05_sound_concurrent_writer (garble : Nat → Nat) (hs : Hashing) (s : State) (c : Call) (ws : List (Nat × Nat))
+    (hne : 1 ≤ s.chain.fhs.length) (hst : StoreOk hs s.chain.fhs s.store)
+    (hws : ∀ p ∈ ws, Good hs s.chain.fhs p.1 p.2) :
+    (∀ fid, (getCFilterW true garble hs s c ws).result = .ret fid → Good hs s.chain.fhs c.target fid) ∧
+    StoreOk hs s.chain.fhs (getCFilterW true garble hs s c ws).st.store :=
+  ⟨(getCFilterW_ok garble hs s c ws hne hst hws).2.1, (getCFilterW_ok garble hs s c ws hne hst hws).1⟩
+
+def exGet1 : Op :=
+  .get { target := 1, batch := .none, maxBatch := 0, resps := [⟨true, true, 1, true, 5, 4⟩], cont := false, verdict := .nil }
+
+example : StoreOk exHash [1, 51, 561] (run exHash (init 100 2 [1, 51, 561] true) [exGet1, .restart]).store ∧
+    Good exHash [1, 51, 561] 2 51 := by decide
+
+/-- **Decoding after the read transaction is a counterexample**: the database
+holds the verified filter 5 of block 1, a writer persists the verified filter of
+block 2 right after the read transaction; decoded inside the transaction the call
+returns filter 5, decoded afterwards it returns the garbled bytes, which do not
+match the committed header — although the database never held anything wrong. -/
+def exS2 : State := run exHash (init 100 2 [1, 51, 561] true) [exGet1, .restart]
+
+theorem C05_decode_after_tx_counterexample :
+    StoreOk exHash exS2.chain.fhs exS2.store ∧ Good exHash exS2.chain.fhs 2 51 ∧
+    (getCFilterW true (· + 1) exHash exS2 exCall [(2, 51)]).result = .ret 5 ∧
+    (getCFilterW false (· + 1) exHash exS2 exCall [(2, 51)]).result = .ret 6 ∧
+    (getCFilterW false (· + 1) exHash exS2 exCall [(2, 51)]).source = .db ∧
+    ¬ Good exHash exS2.chain.fhs 1 6 := by decide
+
+/-- **Only validated filters enter the cache.**  A cache fill that checks each
+(block, filter) pair against the headers committed NOW keeps every cached filter
+matching — whatever pairs it is offered (stale database entries after a header
+change, filters paired with the wrong block, anything), and it does not touch the
+database. -/
+theorem C05_cache_fill_validated (hs : Hashing) (fhs : List Nat) (st : Store) (kvs : List (Nat × Nat × Nat))
+    (h : ∀ e ∈ st.cache.items, Good hs fhs e.key e.vid) :
+    (∀ e ∈ (cacheFillChecked hs fhs st kvs).cache.items, Good hs fhs e.key e.vid) ∧
+    (cacheFillChecked hs fhs st kvs).db = st.db :=
+  ⟨cacheFillChecked_ok hs fhs kvs st h, cacheFillChecked_db hs fhs kvs st⟩
+
+/-- a read-ahead from the database that validates is sound for every set of asked blocks and every database -/
+theorem C05_read_ahead_checked (hs : Hashing) (fhs : List Nat) (st : Store) (ks : List Nat)
+    (h : StoreOk hs fhs st) : StoreOk hs fhs (readAheadChecked hs fhs st ks) := by
+  unfold readAheadChecked
+  exact ⟨cacheFillChecked_ok hs fhs _ st h.1, by rw [cacheFillChecked_db]; exact h.2⟩
+
+example : StoreOk exHash [1, 51, 561, 631] { cache := { cap := 100 }, db := [(3, 7), (1, 5)] } ∧
+    (readAheadChecked exHash [1, 51, 561, 631] { cache := { cap := 100 }, db := [(3, 7), (2, 51), (1, 5)] } [2, 3]).cache.items.length = 2 := by
+  decide
+
+/-- **A read-ahead step that skips the validation is a counterexample.**  The
+database holds the verified filters of blocks 1 and 3 (nothing for block 2); the
+stored filters of blocks [2, 3] come back with the missing one left out and are
+paired with the asked blocks by position: the filter of block 3 enters the cache
+under block 2 and the next call for block 2 returns it.  The validated fill
+offered the same pairs leaves the cache empty. -/
+def exFhs3 : List Nat := [1, 51, 561, 631]
+def exGapStore : Store := { cache := { cap := 100 }, db := [(3, 7), (1, 5)] }
+def exCall2 : Call := { target := 2, batch := .none, maxBatch := 0, resps := [], cont := false, verdict := .nil }
+
+theorem C05_read_ahead_unchecked_counterexample :
+    StoreOk exHash exFhs3 exGapStore ∧
+    ¬ (∀ e ∈ (readAheadNaive exGapStore [2, 3]).cache.items, Good exHash exFhs3 e.key e.vid) ∧
+    (getCFilter exHash { chain := { tip := 3, fhs := exFhs3 }, store := readAheadNaive exGapStore [2, 3] } exCall2).result = .ret 7 ∧
+    ¬ Good exHash exFhs3 2 7 ∧
+    (readAheadChecked exHash exFhs3 exGapStore [2, 3]).cache.items.isEmpty = true := by decide
+
+/-- the same after a header change: an unvalidated fill copies the stale database
+entry into the cache (a second, new way for it to be returned); the validated fill
+refuses it -/
+def exS3 : State := run exHash (init 100 1 [1, 51] true) (exOps ++ [.restart])
+
+theorem C05_read_ahead_stale_counterexample :
+    exS3.store.cache.items.isEmpty = true ∧
+    ¬ (∀ e ∈ (readAheadNaive exS3.store [1]).cache.items, Good exHash exS3.chain.fhs e.key e.vid) ∧
+    (readAheadChecked exHash exS3.chain.fhs exS3.store [1]).cache.items.isEmpty = true := by decide
 
 /-- **Rejected kinds.**  A response that is not a cfilter message, has another
 filter type, names a block that is not (or no longer: duplicates) awaited,
@@ -291,5 +384,16 @@ theorem C05_source_facts :
     Gen.Query.cfRehashArgs = "filter, prevHeader" ∧
     Gen.Query.getCFilterOrder = ["cache", "db", "lock", "deferUnlock", "cache", "prepare", "query"] ∧
     Gen.Query.getCFilterReturnsTargetOrFails = true := by decide
+
+/-- **What the database-layer and cache theorems rely on** (regenerated on every run):
+`filterdb.FetchFilter` decodes (copies) the stored bytes inside the `walletdb.View` closure and no value
+read from the bucket outlives the closure (`dbFetch` with `inTx = true`, `C05_db_read_is_snapshot`); a
+filter enters the memory cache through `putFilterToCache` only, and the only caller of that is
+`cfiltersQuery.handleResponse`, after every test passed (`accept`; any other fill would have to be a
+`cacheFillChecked`, `C05_cache_fill_validated`). -/
+theorem C05_store_source_facts :
+    Gen.Query.fetchDecodesInTx = true ∧
+    Gen.Query.cachePutCallers = ["cfiltersQuery.handleResponse"] ∧
+    Gen.Query.cachePutSites = ["ChainService.putFilterToCache"] := by decide
 
 end Neutrino.GetCFilter
